@@ -20,7 +20,15 @@ Readings (where the property text leaves a choice, the one under which the minim
 * `load_performance(first_note_at_zero=True)` moves the FIRST performed part only: every note / program / control
   time becomes max(t - s, 0), s = smallest note_on of that part; see `oracle_silence`.
 * ids: within a performed part, `n<k>` is the rank in the lexicographic order of (note_on, midi_pitch,
-  note_off, channel, track).
+  note_off, channel, track).  Round 6: `note_on` / `note_off` are the times the loaded notes HAVE (the seconds of the
+  file's whole tempo map), also where they tie: a `set_tempo` of 0 is a set_tempo ("any sequence of set_tempo
+  events") - after it the seconds stand still, notes of different ticks share their onset and the key goes on to the
+  pitch (fixes/C06-8: the unrepaired loader ordered by the seconds it had accumulated while reading the track).
+* round 6: "a list of performed parts" is the performance whatever iterable hands it over (round 5 reading of the
+  forms): the saver's `isinstance(performance_data, Iterable)` branch accepts generators, iterators and `map`
+  objects, and what it writes for one must be what it writes for the list of the same parts (fixes/C06-9: the
+  unrepaired saver wrote a file without tracks); what a SECOND save of the exhausted iterator writes is the empty
+  performance - compared with the model, not judged.
 * the loader makes a performed part only of a track that holds a note, a control or a program (documented
   behaviour: a conductor track is not a part); generated meta events sit on tracks that carry one (round 3: a few
   sit elsewhere - then the round trip of the notes-free track is not judged, only compared with the model).
@@ -57,7 +65,7 @@ DRIVER = "drv_c06"
 PROPS = ["PartituraModel.Props.C06", "PartituraModel.Props.C06Merge", "PartituraModel.Props.C06Tracks",
          "PartituraModel.Props.C06Silence", "PartituraModel.Props.C06Regen", "PartituraModel.Props.C06History",
          "PartituraModel.Props.C06Defaults", "PartituraModel.Props.C06Float", "PartituraModel.Props.C06Tables",
-         "PartituraModel.Props.C06Pairing"]
+         "PartituraModel.Props.C06Pairing", "PartituraModel.Props.C06Order", "PartituraModel.Props.C06Iter"]
 TRUSTED = [
     "mido: (de)serialisation of messages, delta times, merge_tracks (stable sort of absolute ticks), fix_end_of_track "
     "(modelled in absolute ticks as mergeAbs/fixEot and compared on every case)",
@@ -81,6 +89,9 @@ TRUSTED = [
     "round 3: the composed model file -> loader -> exporter (`regen`) integrates the tempo map exactly, the loader in "
     "binary64: it is compared only on second-generation cases none of whose tick images lies within 1e-4 of an x.5 "
     "boundary (the others are compared through `exp` on the loader's binary64 seconds, as every export)",
+    "round 6: `list(iterable)` yields the elements a `for` loop over the iterable would have yielded and leaves a "
+    "one-shot iterable empty (`OneShot`, compared on every save of the `iter` stream); Python compares the tuples of "
+    "the sort key lexicographically, floats by value (`secLe`)",
     "load_match raises on a MIDI file that contains any message (its bytes are not UTF-8): after fixes/C06-6 it is not "
     "even tried once the MIDI loader has succeeded",
 ]
@@ -113,7 +124,19 @@ PARTIAL = [
     "meta_other (unsaved_object_load), which is what the code does; the outputs of midi_to_notearray other than "
     "(onset_tick, pitch, velocity, channel) are only compared with a fresh copy's (duration_tick is C14/C13 matter)",
     "the saver's argument dispatch is modelled for Performance / PerformedPart / list / an iterable with a foreign "
-    "element / a non-iterable; a one-shot iterator (generator) of parts is not modelled",
+    "element / a non-iterable and (round 6, fixes/C06-9) a one-shot iterable - generator, iterator, map - with or "
+    "without a foreign element, over histories of saves of the one object (oneshot_first_save, oneshot_later_saves); "
+    "an iterable whose __iter__ has side effects of its own, or that raises while it is run through, is not modelled",
+    "round 6, ids: ids_by_seconds / ids_by_seconds_file hold for every tempo map (also a tempo of 0) and every "
+    "conversion to seconds; that the order by seconds is the order by ticks (loadFileExact_eq_loadFile for every file "
+    "with positive tempi, written_file_loader for every file the exporter writes - so that `loadFile` of the older "
+    "theorems IS the repaired loader, ids included) is proved for the EXACT integral of positive tempi; "
+    "for the binary64 seconds the code sorts by (`secondsAtF`) strict monotonicity is not proved (two ticks could "
+    "share a binary64 second once increments are absorbed, beyond 2^52 ulps - outside the generated range) - the "
+    "load / loadt / loadf streams sort the model's notes by `secondsAtF` and are compared exactly.  The streams of "
+    "load_performance (sil / silt), of the histories (hist) and of the second generation (regen / regenf) still "
+    "model the loader by `loadFile`: files with a tempo of 0 are generated for load_performance_midi only "
+    "(loadFileS_same_events: for them the other streams would differ in the order of tied notes only)",
     "sound_off of loaded notes (C14) is not part of this check; PerformedPart.mpq of a loaded part is the default tempo "
     "(documented: the loader does not retain tempo) and is not checked",
 ]
@@ -139,7 +162,10 @@ RULE = ("structured random performances (1-4 parts/tracks, channels 0-15, veloci
         "merge_tracks on/off, default_bpm in {120,60,90,100} or every option left to its default, interleaved with obj.save "
         "and reading the messages; half of the histories end with an unmerged load of the object.  `shist` - one "
         "Performance / PerformedPart / list saved 2-4 times with other ppq / mpq / merge_tracks_save (or the defaults) to a "
-        "BytesIO, a path (str / pathlib.Path), an open file, or out=None; 6% hand over a non-performance.  distinct = "
+        "BytesIO, a path (str / pathlib.Path), an open file, or out=None; 6% hand over a non-performance.  Round 6: raw files some of whose set_tempo events carry the tempo 0 (any track, also "
+        "clustered on one tick), through load_performance_midi merged or not; `iter` - the list of parts handed to the "
+        "saver as a generator / iter() / map object / dict view, saved 1-3 times with the one object (ppq / mpq / merge / "
+        "out=None or BytesIO, or the defaults), 8% with an element that is no PerformedPart.  distinct = "
         "distinct request text; non-trivial = at least one note or tempo event")
 LEVEL_TEXT = ("Lean 4 theorems over all tempo lists / message lists / note lists about an executable model of the exporter "
               "and the loader (tick rounding, bucket order and delta encoding, tempo integration, pairing, ids, controls, "
@@ -151,7 +177,12 @@ LEVEL_TEXT = ("Lean 4 theorems over all tempo lists / message lists / note lists
               "programs exactly (count, (track, channel), tick) and the programs of the whole file as an exact multiset; the "
               "exporter's tick in binary64: within 1/2 + 5*2^-53*image of the exact image, monotone (so the notes theorems hold "
               "for the conversion the code uses); keyword defaults / forced keywords / note_hash regenerated from the live "
-              "source by harness/translate_c06.py); the model "
+              "source by harness/translate_c06.py); round 6: the ids follow (note_on, midi_pitch, note_off, channel) of the "
+              "loaded seconds for EVERY tempo map incl. a tempo of 0 with no hypothesis on the conversion, the loader "
+              "coincides with the tick-ordered model exactly when the seconds are strictly increasing - proved from the "
+              "file for positive tempi -, a one-shot iterable of parts is saved as the list of its parts (first save) and "
+              "as the empty performance afterwards, the loader's and the saver's sort keys and the position of the "
+              "loader's sort after adjust_time are regenerated from the live source; the model "
               "is tied to the code by a differential run: message list of every written file (ticks compared exactly with the "
               "binary64 model), every loaded field (seconds exactly with the binary64 model of adjust_time), the "
               "dispatcher's result, the part after first_note_at_zero and every step of every history are compared with the "
@@ -472,13 +503,17 @@ def decorate_ticks(rng, d):
                     c.append(tick(c[0]))
 
 
-def gen_raw(rng, tier):
+def gen_raw(rng, tier, zero=False):
+    """`zero` (round 6): some of the set_tempo events carry the tempo 0 (the seconds stand still until the next
+    tempo change, wherever it is); such files go through load_performance_midi only"""
     ppq = rng.choice([96, 480, 960, 1, 24, rng.randint(1, 2000)])
     ntr = rng.choice([1, 2, 2, 3, 4])
     flavour = rng.choice(["clean", "clean", "messy", "overlap"])
     horizon = rng.choice([50, 2000, 20000])
     tracks = []
     tempi = [500000, 250000, 1000000, 857142, 250001, 1, 16777215, 600000, 600000]
+    if zero:
+        tempi = [0, 0, 0, 500000, 250000, 857142, 1, 600000]
     pedal_ok = flavour != "overlap"
     cluster_tick = rng.choice([None, None, 0, rng.randint(0, horizon)])
     # round 3: the usual layout of a type 1 file - a first track with the tempo map, signatures and texts only,
@@ -559,7 +594,7 @@ def gen_raw(rng, tier):
             tr.append([rng.choice([0, 10, 1000]), 7, 0, 0, 0])
         tracks.append(tr)
     return {"k": "raw", "ppq": ppq, "merge": rng.random() < 0.35, "bpm": rng.choice([120, 120, 120, 60, 90, 100]), "tracks": tracks,
-            "lp": True}
+            "lp": not zero}
 
 
 def gen_adj(rng, tier):
@@ -685,6 +720,25 @@ def gen_shist(rng, tier):
     return {"k": "shist", "src": src, "ops": ops, "bad": bad}
 
 
+ITERFORMS = ["gen", "gen", "iter", "map", "values"]
+
+
+def gen_iter(rng, tier):
+    """round 6: the list of performed parts handed to the saver as a ONE-SHOT iterable (generator expression,
+    `iter(list)`, `map`) or as a re-iterable view that is no list (dict values), saved 1-3 times with the same
+    object.  The first save must write what saving the list writes; what a later save of an exhausted iterator
+    writes (the empty performance) is compared with the model only.  A few hold an element that is no part."""
+    src = gen_perf(rng, tier, kind="list")
+    src["lp"] = False
+    ops = []
+    for _ in range(rng.choice([1, 2, 2, 3])):
+        if rng.random() < 0.15:
+            ops.append([rng.choice(["buf", "none"]), None, None, None])
+        else:
+            ops.append([rng.choice(["buf", "none"]), rng.choice(PPQS + [480]), rng.choice(MPQS + [500000]), rng.random() < 0.4])
+    return {"k": "iter", "src": src, "form": rng.choice(ITERFORMS), "ops": ops, "bad": rng.random() < 0.08}
+
+
 def cases(rng, tier):
     n = {"quick": 1200, "thorough": 15000, "search": 4000}.get(tier, 1200)
     # every configuration of the finite part of the quantifier on a few performances
@@ -710,6 +764,10 @@ def cases(rng, tier):
             yield gen_lhist(rng, tier)
         if i % 8 == 2:
             yield gen_shist(rng, tier)
+        if i % 8 == 4:
+            yield gen_raw(rng, tier, zero=True)
+        if i % 12 == 7:
+            yield gen_iter(rng, tier)
 
 
 # ------------------------------------------------------------------ reference arithmetic (oracle)
@@ -874,13 +932,21 @@ def check_loaded_against_file(ev, perf, tracks, ppq, dmpq, merge, tag):
         # ids: n<rank> in the order of (note_on, pitch, note_off, channel, track)
         # (seconds are a strictly increasing function of ticks for positive tempi: the order by ticks is the
         # order by seconds, and is free of binary64 ties)
+        # round 6: that holds for POSITIVE tempi only; after a set_tempo of 0 the seconds stand still and notes of
+        # different ticks tie - the clause on the ticks is judged when the default and every tempo of the file are
+        # positive, and for every file the ids have to follow the key as the property states it, on the loaded values
         keys = [(n["note_on_tick"], n["midi_pitch"], n["note_off_tick"], n["channel"], n["track"]) for n in pp.notes]
+        skeys = [(float(n["note_on"]), n["midi_pitch"], float(n["note_off"]), n["channel"], n["track"]) for n in pp.notes]
+        positive = dmpq > 0 and all(m > 0 for _, m in tempo_events)
         ids = [n["id"] for n in pp.notes]
         byid = sorted(range(len(ids)), key=lambda i: int(ids[i][1:]) if str(ids[i]).startswith("n") and str(ids[i])[1:].isdigit() else -1)
         if sorted(ids) != sorted("n%d" % i for i in range(len(ids))):
             ev.oracle.append("%s ids: part %d has ids %r" % (tag, j, ids[:10]))
-        elif any(keys[byid[i]] > keys[byid[i + 1]] for i in range(len(ids) - 1)):
+        elif positive and any(keys[byid[i]] > keys[byid[i + 1]] for i in range(len(ids) - 1)):
             ev.oracle.append("%s ids: part %d, ids do not follow (onset, pitch, offset, channel, track): %r" % (tag, j, [(ids[i], keys[i]) for i in byid][:6]))
+        elif any(skeys[byid[i]] > skeys[byid[i + 1]] for i in range(len(ids) - 1)):
+            ev.oracle.append("%s ids: part %d, ids do not follow the loaded (note_on, midi_pitch, note_off, channel, track): %r"
+                             % (tag, j, [(ids[i], skeys[i]) for i in byid][:6]))
 
 
 def _ref_has_note(l):
@@ -1503,6 +1569,14 @@ def eval_raw(d):
     nnotes = sum(len(pp.notes) for pp in perf.performedparts)
     ev.key = ("raw|" + lreq) if (ntempo or nnotes) else None
     ev.info.update({"tempo_events": ntempo, "tempo_in_later_track": int(any(m[1] == 4 for tr in tracks[1:] for m in tr))})
+    # round 6: files with a tempo of 0; parts in which the order of the ids (by seconds) is not the order by ticks
+    zero = any(m[1] == 4 and m[2] == 0 for tr in tracks for m in tr)
+    differs = 0
+    for pp in perf.performedparts:
+        tk = [(n["note_on_tick"], n["midi_pitch"], n["note_off_tick"], n["channel"]) for n in pp.notes]
+        differs += int(tk != sorted(tk))
+    ev.info.update({"files_with_tempo_zero": int(zero), "parts_ordered_by_seconds_not_ticks": differs,
+                    "parts_of_tempo_zero_files": len(perf.performedparts) if zero else 0})
     return ev
 
 
@@ -2005,6 +2079,83 @@ def eval_shist(d):
     return ev
 
 
+def eval_iter(d):
+    import mido
+    from partitura.io.exportmidi import save_performance_midi
+
+    ev = Eval()
+    src = d["src"]
+    r, e = call(build_parts, src)
+    if e:
+        return ev
+    pps = r
+    view0 = view_of(pps)
+    items = list(pps) + ([42] if d.get("bad") else [])
+    form = d["form"]
+    if form == "gen":
+        arg = (x for x in items)
+    elif form == "iter":
+        arg = iter(items)
+    elif form == "map":
+        arg = map(lambda x: x, items)
+    else:
+        arg = dict(enumerate(items)).values()  # an iterable that is no list and CAN be run through again
+    oneshot = form != "values"
+    texts, model_ops = [], []
+    for oi, op in enumerate(d["ops"]):
+        out_form, ppq, mpq, msave = op
+        if ppq is None:
+            kw = {}
+            model_ops.append("1 0 0 0 %s" % W.b(out_form == "none"))
+        else:
+            kw = dict(mpq=mpq, ppq=ppq, merge_tracks_save=msave)
+            model_ops.append("0 %d %d %s %s" % (ppq, mpq, W.b(msave), W.b(out_form == "none")))
+        where = "save %d of one %s of %d performed parts (out=%s, options %r)" % (oi, {"gen": "generator", "iter": "iterator", "map": "map object", "values": "dict view"}[form], len(pps), out_form, kw)
+        buf = io.BytesIO()
+        returned, e = call(save_performance_midi, arg, None if out_form == "none" else buf, **kw)
+        if d.get("bad") and (oi == 0 or not oneshot) and not isinstance(e, ValueError):
+            # (an exhausted one-shot iterable no longer holds the foreign element: only its first call is judged)
+            ev.oracle.append("iterable: %s with an element that is no PerformedPart: %s, documented: ValueError"
+                             % (where, ("raised %r" % (e,)) if e else "no error"))
+        if e:
+            texts.append("err" if isinstance(e, ValueError) else "err:" + type(e).__name__)
+            if not d.get("bad"):
+                ev.oracle.append("iterable: %s raised %r" % (where, e))
+            continue
+        if out_form == "none":
+            if returned is None:
+                texts.append("err:None")
+                ev.oracle.append("iterable: %s returned None, documented: the MidiFile" % where)
+                continue
+            texts.append(W.f_tuple(W.f_int(returned.type), W.f_list(fmt_track, file_tracks(returned))))
+            b2 = io.BytesIO()
+            returned.save(file=b2)
+            data = b2.getvalue()
+        else:
+            data = buf.getvalue()
+            mfw = mido.MidiFile(file=io.BytesIO(data))
+            texts.append(W.f_tuple(W.f_int(mfw.type), W.f_list(fmt_track, file_tracks(mfw))))
+        if (oi == 0 or not oneshot) and not d.get("bad"):
+            # the same performance handed over as a list
+            ref = io.BytesIO()
+            _, e2 = call(save_performance_midi, list(build_parts(src)), ref, **kw)
+            if not e2 and ref.getvalue() != data:
+                got = file_tracks(mido.MidiFile(file=io.BytesIO(data)))
+                exp = file_tracks(mido.MidiFile(file=io.BytesIO(ref.getvalue())))
+                ev.oracle.append("iterable: %s wrote %d track(s) %r..., saving the list of the same parts writes %d track(s) %r..."
+                                 % (where, len(got), [t[:5] for t in got][:3], len(exp), [t[:5] for t in exp][:3]))
+    if len(texts) == len(d["ops"]):
+        if oneshot:
+            sreq = "isaves %s %s %s" % (W.b(bool(d.get("bad"))), W.lst(part_req, view0), W.lst(lambda o: o, model_ops))
+        else:
+            sreq = "saves %d %s %s" % (3 if d.get("bad") else 2, W.lst(part_req, view0), W.lst(lambda o: o, model_ops))
+        ev.requests.append(sreq)
+        ev.impl.append(W.f_list(lambda t: t, texts))
+        ev.key = ("iter|" + form + "|" + sreq) if any(p["notes"] for p in view0) else None
+    ev.info.update({"iter_saves": len(d["ops"]), "iter_form_" + form: 1, "iter_foreign_element": int(bool(d.get("bad")))})
+    return ev
+
+
 def eval_adj(d):
     from partitura.io.importmidi import adjust_time
 
@@ -2040,6 +2191,8 @@ def evaluate(d):
         return eval_lhist(d)
     if d["k"] == "shist":
         return eval_shist(d)
+    if d["k"] == "iter":
+        return eval_iter(d)
     return eval_adj(d)
 
 
@@ -2111,7 +2264,7 @@ def shrink(d):
             c = copy.deepcopy(d)
             c["src"] = s2
             yield c
-    elif d["k"] in ("lhist", "shist"):
+    elif d["k"] in ("lhist", "shist", "iter"):
         if len(d["ops"]) > 1:
             for i in range(len(d["ops"])):
                 c = copy.deepcopy(d)
